@@ -663,6 +663,19 @@ def gen_all_algos_plan(rng, tier="quick", stateful=False, random_algos=True):
                 ws = [rng.random() if rng.random() < 0.65 else None for _ in names]  # dated targets drop names
                 tot = sum(w for w in ws if w is not None) or 1.0
                 data.append([None if w is None else round(w / tot * rng.choice([1.0, 0.7]), 4) for w in ws])
+            if rng.random() < 0.4:
+                # targets stamped on calendar dates that are not dates of the data (a month-end on a weekend, ...): there is no
+                # date on which such a row is 'dated now', so it must never be applied
+                import datetime as _dt
+
+                for k2 in range(len(rows)):
+                    i2 = dates.index(rows[k2])
+                    if i2 + 1 < len(dates) and rng.random() < 0.4:
+                        a2, b2 = _dt.datetime.fromisoformat(dates[i2]), _dt.datetime.fromisoformat(dates[i2 + 1])
+                        mid = a2 + (b2 - a2) / 2
+                        if a2 < mid < b2:
+                            rows[k2] = mid.isoformat()
+                            fired["target_row_off_the_timeline"] = 1
             extra[nm] = _frame(names, data, rows=rows)
             st.append({"a": "WeighTarget", "args": [nm]})
         else:
